@@ -25,6 +25,12 @@ def build_demo(root, demo, out, extra):
         cmd = ['gcc', '-m32', '-O1', '-std=gnu11', '-ffreestanding', '-fno-builtin', '-nostdlib', '-static', '-fno-stack-protector', '-DNDEBUG', '-DPOLYSEED_STATIC',
                '-isystem', os.path.join(VERIF, 'harness', 'ilp32', 'include'), '-I', os.path.join(root, 'include')] + srcs + [demo, '-o', out]
         return sh(cmd)
+    if '--shared' in extra:               # the demo wants the library as the shared object CMake builds by default
+        so = out + '-libpolyseed.so'
+        r = sh(['gcc', '-O2', '-fPIC', '-shared', '-std=gnu11', '-DNDEBUG', '-DPOLYSEED_SHARED', '-I', os.path.join(root, 'include')] + srcs + ['-o', so])
+        if r.returncode != 0:
+            return r
+        return sh(['gcc', '-O2', '-std=gnu11', '-I', os.path.join(root, 'include'), demo, so, '-Wl,-rpath,' + os.path.dirname(so), '-lutf8proc', '-lpthread', '-o', out])
     cc = 'clang' if '--clang' in extra else 'gcc'
     extra = [e for e in extra if e != '--clang']
     cmd = [cc, '-g', '-O1', '-std=gnu11', '-DPOLYSEED_STATIC', '-I', os.path.join(root, 'include')] + extra + srcs + [demo, '-o', out, '-lutf8proc', '-lpthread']      # flags in `extra` come later and override -O1
@@ -39,6 +45,8 @@ def demo_flags(demo_src):
     extra = []
     if '-m32' in cmd and '-nostdlib' in cmd:
         return ['--freestanding-m32']
+    if re.search(r'-shared\b', cmd) and 'POLYSEED_SHARED' in cmd:
+        return ['--shared']
     if re.search(r'(^|\s|\*)clang\b', cmd) and not re.search(r'(^|\s|\*)gcc\b', cmd):
         extra.append('--clang')
     m = re.search(r'-fsanitize=([a-z,]+)', cmd)
